@@ -45,11 +45,11 @@ func H_script_hist() {
 	body := ""
 	m := &model{pending: 200}
 	for s := 0; s < k; s++ {
-		op := symx.Choose("op"+names[s], 9)
+		op := symx.Choose("op"+names[s], 11)
 		code := symx.IntRange("code"+names[s], 100, 999)
 		codes[s] = code
 		hv := 0
-		if op == 1 || op == 5 || op == 6 {
+		if op == 1 || op == 5 || op == 6 || op == 10 {
 			hv = symx.Choose("hv"+names[s], 2)
 		}
 		cv := "code(" + names[s] + ")"
@@ -103,6 +103,16 @@ func H_script_hist() {
 				m.pending, m.statusSet = c, true
 			}
 			m.commit(m.pending)
+		case 9:
+			body += "  $w->writeHeader(" + cv + ");\n"
+			m.commit(code)
+		case 10:
+			cn := [2]string{"sid", "csrf"}
+			body += "  $w->cookie(\"" + cn[hv] + "\", \"" + vals[hv] + "\");\n"
+			if m.live[3] != "" {
+				m.live[3] += "|"
+			}
+			m.live[3] += cn[hv] + "=" + vals[hv]
 		}
 	}
 	if !m.committed && m.statusSet {
@@ -129,7 +139,7 @@ func H_script_hist() {
 	symx.Assert(rec.commits == m.commits, "script: commit count")
 	if m.committed && rec.commits == 1 {
 		symx.Assert(rec.code == m.code, "script: client receives the last status set before the commit")
-		symx.Assert(rec.sent[0] == m.sent[0] && rec.sent[1] == m.sent[1] && rec.sent[2] == m.sent[2], "script: headers set before the commit reach the client")
+		symx.Assert(rec.sent[0] == m.sent[0] && rec.sent[1] == m.sent[1] && rec.sent[2] == m.sent[2] && rec.sent[3] == m.sent[3], "script: headers set before the commit reach the client")
 	}
 	symx.Assert(string(rec.body) == string(m.body), "script: body is the concatenation of the writes")
 	symx.Reach("end")
